@@ -287,4 +287,500 @@ example : ((parseRead exLocus exRead).1.map fun e => (e.pos, e.op)) =
 example : refLen exRead.cigar = 7 := by decide
 end Example
 
+/-! ### loci with multi-substitution sites: the merge changes nothing elsewhere -/
+
+theorem filter_eraseIdx_of_not {α : Type} (P : α → Bool) (l : List α) (i : Nat) (h : ∀ x, l[i]? = some x → P x = false) :
+    (l.eraseIdx i).filter P = l.filter P := by
+  induction l generalizing i with
+  | nil => simp
+  | cons y ys ih =>
+    cases i with
+    | zero =>
+      have : P y = false := h y (by simp)
+      simp [List.eraseIdx, this]
+    | succ j =>
+      simp only [List.eraseIdx_cons_succ, List.filter_cons]
+      rw [ih j (fun x hx => h x (by simpa using hx))]
+
+theorem depthAt_reverse (evs : List Ev) (p : Int) : depthAt evs.reverse p = depthAt evs p := by
+  simp [depthAt, List.filter_reverse]
+
+theorem eraseFound_depth (rev : List Ev) (pos : Int) (op : String) (q : Int) (hq : q ≠ pos) (i : Nat)
+    (hi : rev.findIdx? (fun e => e.pos == pos && e.op == op) = some i) :
+    depthAt (rev.eraseIdx i) q = depthAt rev q := by
+  unfold depthAt
+  rw [filter_eraseIdx_of_not]
+  intro x hx
+  obtain ⟨hlt, hp, _⟩ := List.findIdx?_eq_some_iff_getElem.mp hi
+  have hxe : x = rev[i] := by
+    have : rev[i]? = some (rev[i]) := List.getElem?_eq_getElem hlt
+    rw [this] at hx
+    exact (Option.some.inj hx).symm
+  simp only [Bool.and_eq_true, beq_iff_eq] at hp
+  have : x.pos ≠ q := by rw [hxe, hp.1]; exact fun h => hq h.symm
+  simp [this]
+
+/-- popping an observation of another position does not change the depth here -/
+theorem popLast_depth_other (evs : List Ev) (pos : Int) (op : String) (q : Int) (hq : q ≠ pos) :
+    depthAt (popLast evs pos op).1 q = depthAt evs q := by
+  unfold popLast
+  dsimp only
+  split
+  · rename_i i hi
+    rw [depthAt_reverse, eraseFound_depth _ pos op q hq i hi, depthAt_reverse]
+  · rfl
+
+
+/-- does the multi-substitution site concern position `q` (its first position or one of its components)? -/
+def siteTouches (site : Int × String) (q : Int) : Bool :=
+  q == site.1 || (mnpParts site.2).any fun p => q == site.1 + (p.1 : Int)
+
+theorem depthAt_snoc_other (evs : List Ev) (e : Ev) (q : Int) (h : e.pos ≠ q) : depthAt (evs ++ [e]) q = depthAt evs q := by
+  rw [depthAt_append]
+  simp [depthAt, h]
+
+/-- **merge_keeps_depth_elsewhere** merging the single-base substitutions of a multi-substitution
+changes the observations only at the positions of that site -/
+theorem mergeMnp_depth_away (l : LocusV) (evs : List Ev) (dump : List (Int × String)) (q : Int)
+    (h : ∀ site ∈ l.multiSites, siteTouches site q = false) :
+    depthAt (mergeMnp l evs dump) q = depthAt evs q := by
+  unfold mergeMnp
+  have key : ∀ (ss : List (Int × String)), (∀ site ∈ ss, siteTouches site q = false) → ∀ evs : List Ev,
+      depthAt (ss.foldl (fun evs site =>
+        let pos := site.1
+        let parts := mnpParts site.2
+        if dump.any (fun d => d.1 == pos) && parts.all (fun p => dump.contains (pos + (p.1 : Int), p.2)) then
+          let step := parts.foldl (fun (acc : List Ev × List Obs) p =>
+            match popLast acc.1 (pos + (p.1 : Int)) p.2 with
+            | (evs', some o) =>
+              ((if p.1 != 0 then evs' ++ [⟨pos + (p.1 : Int), "_", o⟩] else evs'), acc.2 ++ [o])
+            | (evs', none) => (evs', acc.2)) (evs, [])
+          step.1 ++ [⟨pos, site.2, (ratMean (step.2.map (·.1)), ratMean (step.2.map (·.2)))⟩]
+        else evs) evs) q = depthAt evs q := by
+    intro ss
+    induction ss with
+    | nil => intro _ evs; rfl
+    | cons site ss ih =>
+      intro hs evs
+      simp only [List.foldl_cons]
+      rw [ih (fun s hs' => hs s (by simp [hs']))]
+      have ht := hs site (by simp)
+      simp only [siteTouches, Bool.or_eq_false_iff, beq_eq_false_iff_ne, ne_eq, List.any_eq_false, beq_iff_eq] at ht
+      split
+      · rw [depthAt_snoc_other _ _ _ (fun hh => ht.1 hh.symm)]
+        -- the inner fold over the components
+        have inner : ∀ (ps : List (Nat × String)), (∀ p ∈ ps, ¬ q = site.1 + (p.1 : Int)) → ∀ acc : List Ev × List Obs,
+            depthAt (ps.foldl (fun (acc : List Ev × List Obs) p =>
+              match popLast acc.1 (site.1 + (p.1 : Int)) p.2 with
+              | (evs', some o) =>
+                ((if p.1 != 0 then evs' ++ [⟨site.1 + (p.1 : Int), "_", o⟩] else evs'), acc.2 ++ [o])
+              | (evs', none) => (evs', acc.2)) acc).1 q = depthAt acc.1 q := by
+          intro ps
+          induction ps with
+          | nil => intro _ acc; rfl
+          | cons p ps ihp =>
+            intro hp acc
+            simp only [List.foldl_cons]
+            rw [ihp (fun x hx => hp x (by simp [hx]))]
+            have hne : q ≠ site.1 + (p.1 : Int) := hp p (by simp)
+            have hpop := popLast_depth_other acc.1 (site.1 + (p.1 : Int)) p.2 q hne
+            rcases hres : popLast acc.1 (site.1 + (p.1 : Int)) p.2 with ⟨evs', o?⟩
+            rw [hres] at hpop
+            cases o? with
+            | none => simpa using hpop
+            | some o =>
+              simp only
+              split
+              · rw [depthAt_snoc_other _ _ _ (fun hh => hne hh.symm)]; exact hpop
+              · exact hpop
+        exact inner _ (fun p hp => ht.2 p hp) (evs, [])
+      · rfl
+  exact key l.multiSites h evs
+
+
+/-- **depth_one_read (any locus)** at every position that is not part of a catalogued
+multi-substitution site the statement of `depth_one_read` holds for every locus -/
+theorem depth_one_read_general (l : LocusV) (r : ReadV) (p : Int)
+    (h : ∀ site ∈ l.multiSites, siteTouches site p = false) :
+    depthAt (parseRead l r).1 p = if r.refStart ≤ p ∧ p < r.refStart + refLen r.cigar then 1 else 0 := by
+  unfold parseRead
+  simp only
+  rw [mergeMnp_depth_away l _ _ p h]
+  exact depth_walk l r p
+
+/-- **depth_total (any locus)** -/
+theorem depth_total_general (l : LocusV) (reads : List ReadV) (p : Int)
+    (h : ∀ site ∈ l.multiSites, siteTouches site p = false) :
+    depthAt (reads.flatMap fun r => (parseRead l r).1) p =
+      (reads.filter fun r => decide (r.refStart ≤ p ∧ p < r.refStart + refLen r.cigar)).length := by
+  induction reads with
+  | nil => simp [depthAt]
+  | cons r rs ih =>
+    rw [List.flatMap_cons, depthAt_append, ih, depth_one_read_general l r p h, List.filter_cons]
+    by_cases hh : r.refStart ≤ p ∧ p < r.refStart + refLen r.cigar
+    · simp [hh]; omega
+    · simp [hh]
+
+
+/-! ### content: what each read shows, and the support of every operation -/
+
+/-- number of observations of operation `o` at `p` -/
+def countOp (evs : List Ev) (p : Int) (o : String) : Nat := (evs.filter fun e => e.pos == p && e.op == o).length
+
+theorem countOp_append (a b : List Ev) (p : Int) (o : String) : countOp (a ++ b) p o = countOp a p o + countOp b p o := by
+  simp [countOp, List.filter_append]
+
+theorem countOp_single (q : Int) (op : String) (ob : Obs) (p : Int) (o : String) :
+    countOp [⟨q, op, ob⟩] p o = if (q == p && op == o) = true then 1 else 0 := by
+  simp only [countOp, List.filter_cons, List.filter_nil]
+  split <;> simp
+
+/-- what a match run that starts at reference `start` / read offset `sStart` shows at `p` -/
+def calledOp (l : LocusV) (r : ReadV) (start : Int) (sStart : Nat) (p : Int) : String :=
+  let b := r.seq.getD (sStart + (p - start).toNat) 'N'
+  if l.inGene p && l.base p != b then strOf [l.base p, '>', b] else "_"
+
+theorem ind_step3 (start p : Int) (k : Nat) (c : Bool) (c' : Prop) [Decidable c'] (h : start + (k : Int) = p → (c = true ↔ c')) :
+    (if start ≤ p ∧ p < start + (k : Int) ∧ c' then (1 : Nat) else 0) + (if (start + (k : Int) == p && c) = true then 1 else 0) =
+      (if start ≤ p ∧ p < start + ((k + 1 : Nat) : Int) ∧ c' then 1 else 0) := by
+  by_cases hp : start + (k : Int) = p
+  · have := h hp
+    by_cases hc : c = true
+    · have hc' := this.mp hc
+      subst hp
+      simp [hc, hc']
+    · have hc' : ¬ c' := fun x => hc (this.mpr x)
+      simp [hc, hc']
+  · have hb : (start + (k : Int) == p) = false := by simpa using hp
+    simp only [hb, Bool.false_and, Bool.false_eq_true, if_false, Nat.add_zero]
+    push_cast
+    by_cases h1 : start ≤ p ∧ p < start + (k : Int) ∧ c'
+    · have : start ≤ p ∧ p < start + ((k : Int) + 1) ∧ c' := ⟨h1.1, by omega, h1.2.2⟩
+      simp [h1, this]
+    · have : ¬ (start ≤ p ∧ p < start + ((k : Int) + 1) ∧ c') := by
+        intro hh
+        apply h1
+        refine ⟨hh.1, ?_, hh.2.2⟩
+        have := hh.2.1
+        omega
+      simp [h1, this]
+
+theorem walkMatch_count (l : LocusV) (r : ReadV) (size : Nat) (s : WalkState) (p : Int) (o : String) :
+    countOp (walkMatch l r size s).evs p o =
+      countOp s.evs p o + (if s.start ≤ p ∧ p < s.start + size ∧ calledOp l r s.start s.sStart p = o then 1 else 0) ∧
+    (walkMatch l r size s).sStart = s.sStart + size := by
+  unfold walkMatch
+  refine ⟨?_, rfl⟩
+  simp only
+  have key : ∀ (n : Nat) (st0 : WalkState),
+      countOp ((List.range n).foldl (fun (st : WalkState) (i : Nat) =>
+        let p' : Int := s.start + (i : Int)
+        let q := qualAt r (s.sStart + i) st.prevQ
+        let b := r.seq.getD (s.sStart + i) 'N'
+        let o : Obs := (binQuality r.mq, binQuality q)
+        if l.inGene p' && l.base p' != b then
+          let op := strOf [l.base p', '>', b]
+          { st with evs := st.evs ++ [⟨p', op, o⟩], dump := st.dump ++ [(p', op)],
+                    phase := if l.phaseable.contains p' then st.phase ++ [(p', op)] else st.phase, prevQ := q }
+        else
+          { st with evs := st.evs ++ [⟨p', "_", o⟩],
+                    phase := if l.phaseable.contains p' then st.phase ++ [(p', "_")] else st.phase, prevQ := q }) st0).evs p o
+      = countOp st0.evs p o + (if s.start ≤ p ∧ p < s.start + n ∧ calledOp l r s.start s.sStart p = o then 1 else 0) := by
+    intro n
+    induction n with
+    | zero =>
+      intro st0
+      simp only [List.range_zero, List.foldl_nil, Nat.cast_zero, add_zero]
+      rw [if_neg (by intro hh; have := hh.2.1; omega)]; rfl
+    | succ k ih =>
+      intro st0
+      rw [List.range_succ, List.foldl_append, List.foldl_cons, List.foldl_nil]
+      simp only
+      have hk : ∀ (hp : s.start + (k : Int) = p), (s.start + (k : Int) - s.start).toNat = k := by intro _; simp
+      split
+      · rename_i hc
+        simp only [countOp_append, ih]
+        rw [Nat.add_assoc]
+        congr 1
+        rw [countOp_single]
+        apply ind_step3
+        intro hp
+        subst hp
+        simp only [calledOp, add_sub_cancel_left, Int.toNat_natCast, hc, if_true, beq_iff_eq]
+      · rename_i hc
+        simp only [countOp_append, ih]
+        rw [Nat.add_assoc]
+        congr 1
+        rw [countOp_single]
+        apply ind_step3
+        intro hp
+        subst hp
+        simp only [calledOp, add_sub_cancel_left, Int.toNat_natCast, hc, Bool.false_eq_true, if_false, beq_iff_eq]
+  exact key size s
+
+
+/-- what the alignment shows at reference position `p` (non-insertion view): the deleted-base
+marker inside a deletion, the called base inside a match run, nothing outside the alignment -/
+def showsAt (l : LocusV) (r : ReadV) : List (Nat × Nat) → Int → Nat → Int → Option String
+  | [], _, _, _ => none
+  | (op, size) :: cs, start, sStart, p =>
+    if op == 2 then (if start ≤ p ∧ p < start + size then some "-" else showsAt l r cs (start + size) sStart p)
+    else if op == 1 then showsAt l r cs start (sStart + size) p
+    else if op == 4 then showsAt l r cs start (sStart + size) p
+    else if Const.PARSE_MATCH_OPS.contains op then
+      (if start ≤ p ∧ p < start + size then some (calledOp l r start sStart p) else showsAt l r cs (start + size) (sStart + size) p)
+    else showsAt l r cs start sStart p
+
+theorem walkOp_sStart (l : LocusV) (r : ReadV) (s : WalkState) (op size : Nat) :
+    (walkOp l r s op size).sStart =
+      if op == 2 then s.sStart else if op == 1 then s.sStart + size else if op == 4 then s.sStart + size
+      else if Const.PARSE_MATCH_OPS.contains op then s.sStart + size else s.sStart := by
+  unfold walkOp
+  by_cases h2 : (op == 2) = true
+  · simp [h2]
+  · by_cases h1 : (op == 1) = true
+    · simp [h2, h1]
+    · by_cases h4 : (op == 4) = true
+      · simp [h2, h1, h4]
+      · by_cases hm : Const.PARSE_MATCH_OPS.contains op = true
+        · simp only [h2, h1, h4, hm, Bool.false_eq_true, if_false, if_true]
+          exact (walkMatch_count l r size s 0 "").2
+        · have hm' : op ∉ Const.PARSE_MATCH_OPS := by simpa using hm
+          simp [h2, h1, h4, hm']
+
+theorem count_del_run (start : Int) (size : Nat) (ob : Obs) (p : Int) (o : String) :
+    countOp ((List.range size).map fun (i : Nat) => (⟨start + (i : Int), "-", ob⟩ : Ev)) p o =
+      if start ≤ p ∧ p < start + size ∧ "-" = o then 1 else 0 := by
+  induction size with
+  | zero =>
+    simp only [List.range_zero, List.map_nil, Nat.cast_zero, add_zero]
+    rw [if_neg (by intro hh; have := hh.2.1; omega)]; rfl
+  | succ k ih =>
+    rw [List.range_succ, List.map_append, countOp_append, ih, List.map_cons, List.map_nil, countOp_single]
+    apply ind_step3
+    intro _
+    simp
+
+/-- one CIGAR operation, content version of `walkOp_depth` (for non-insertion operations `o`) -/
+theorem walkOp_count (l : LocusV) (r : ReadV) (s : WalkState) (op size : Nat) (p : Int) (o : String) (ho : opIsIns o = false) :
+    countOp (walkOp l r s op size).evs p o =
+      countOp s.evs p o +
+        (if op == 2 then (if s.start ≤ p ∧ p < s.start + size ∧ "-" = o then 1 else 0)
+         else if op == 1 then 0 else if op == 4 then 0
+         else if Const.PARSE_MATCH_OPS.contains op then
+           (if s.start ≤ p ∧ p < s.start + size ∧ calledOp l r s.start s.sStart p = o then 1 else 0)
+         else 0) := by
+  unfold walkOp
+  by_cases h2 : (op == 2) = true
+  · simp only [h2, if_true]
+    rw [countOp_append, count_del_run]
+  · by_cases h1 : (op == 1) = true
+    · simp only [h2, h1, Bool.false_eq_true, if_false, if_true]
+      rw [countOp_append, countOp_single]
+      have : (("ins" ++ strOf ((List.range size).map fun i => r.seq.getD (s.sStart + i) 'N')) == o) = false := by
+        apply beq_false_of_ne
+        intro he
+        rw [← he, opIsIns_ins] at ho
+        cases ho
+      rw [this, Bool.and_false]
+      simp
+    · by_cases h4 : (op == 4) = true
+      · simp [h2, h1, h4]
+      · by_cases hm : Const.PARSE_MATCH_OPS.contains op = true
+        · simp only [h2, h1, h4, hm, Bool.false_eq_true, if_false, if_true]
+          exact (walkMatch_count l r size s p o).1
+        · have hm' : op ∉ Const.PARSE_MATCH_OPS := by simpa using hm
+          simp [h2, h1, h4, hm']
+
+theorem showsAt_before (l : LocusV) (r : ReadV) (cs : List (Nat × Nat)) (st : Int) (ss : Nat) (p : Int) (h : p < st) :
+    showsAt l r cs st ss p = none := by
+  induction cs generalizing st ss with
+  | nil => rfl
+  | cons c cs ih =>
+    obtain ⟨op, size⟩ := c
+    have hn : ¬ (st ≤ p ∧ p < st + (size : Int)) := by intro hh; omega
+    by_cases h2 : (op == 2) = true
+    · simp only [showsAt, h2, if_true, hn, if_false]; exact ih _ _ (by omega)
+    · by_cases h1 : (op == 1) = true
+      · simp only [showsAt, h2, h1, Bool.false_eq_true, if_false, if_true]; exact ih _ _ h
+      · by_cases h4 : (op == 4) = true
+        · simp only [showsAt, h2, h1, h4, Bool.false_eq_true, if_false, if_true]; exact ih _ _ h
+        · by_cases hm : Const.PARSE_MATCH_OPS.contains op = true
+          · simp only [showsAt, h2, h1, h4, hm, Bool.false_eq_true, if_false, if_true, hn]; exact ih _ _ (by omega)
+          · simp only [showsAt, h2, h1, h4, hm, Bool.false_eq_true, if_false]; exact ih _ _ h
+
+/-- **shows_one_read** for every read, locus and position: among the observations the CIGAR walk
+produces there is exactly one non-insertion observation at `p` when the alignment spans `p` -
+the operation `showsAt` says (deleted-base marker, reference marker or the substitution to the
+read's base) - and none otherwise -/
+theorem shows_one_read (l : LocusV) (r : ReadV) (p : Int) (o : String) (ho : opIsIns o = false) :
+    countOp (walk l r).evs p o = if showsAt l r r.cigar r.refStart 0 p = some o then 1 else 0 := by
+  unfold walk
+  have key : ∀ (cig : List (Nat × Nat)) (s : WalkState),
+      countOp (cig.foldl (fun s c => walkOp l r s c.1 c.2) s).evs p o =
+        countOp s.evs p o + (if showsAt l r cig s.start s.sStart p = some o then 1 else 0) := by
+    intro cig
+    induction cig with
+    | nil => intro s; simp [showsAt]
+    | cons c cs ih =>
+      intro s
+      obtain ⟨op, size⟩ := c
+      rw [List.foldl_cons, ih, walkOp_count l r s op size p o ho, walkOp_start, walkOp_sStart, Nat.add_assoc]
+      congr 1
+      by_cases h2 : (op == 2) = true
+      · simp only [showsAt, consumes, h2, if_true, Bool.true_or]
+        by_cases hin : s.start ≤ p ∧ p < s.start + (size : Int)
+        · rw [showsAt_before l r cs _ _ p hin.2]
+          by_cases ho' : "-" = o
+          · subst ho'; simp [hin]
+          · have : ¬ (some "-" = some o) := fun hh => ho' (Option.some.inj hh)
+            simp [hin, ho', this]
+        · have : ¬ (s.start ≤ p ∧ p < s.start + (size : Int) ∧ "-" = o) := fun hh => hin ⟨hh.1, hh.2.1⟩
+          simp [this, hin]
+      · have e2 : (op == 2) = false := by simpa using h2
+        by_cases h1 : (op == 1) = true
+        · have : op = 1 := by simpa using h1
+          subst this
+          simp [showsAt, consumes, not_mem_match_1]
+        · have e1 : (op == 1) = false := by simpa using h1
+          by_cases h4 : (op == 4) = true
+          · have : op = 4 := by simpa using h4
+            subst this
+            simp [showsAt, consumes, not_mem_match_4]
+          · have e4 : (op == 4) = false := by simpa using h4
+            by_cases hm : Const.PARSE_MATCH_OPS.contains op = true
+            · simp only [showsAt, consumes, e2, e1, e4, hm, Bool.false_eq_true, if_false, if_true, Bool.false_or]
+              by_cases hin : s.start ≤ p ∧ p < s.start + (size : Int)
+              · rw [showsAt_before l r cs _ _ p hin.2]
+                by_cases ho' : calledOp l r s.start s.sStart p = o
+                · simp [hin, ho']
+                · have : ¬ (some (calledOp l r s.start s.sStart p) = some o) := fun hh => ho' (Option.some.inj hh)
+                  simp [hin, ho', this]
+              · have : ¬ (s.start ≤ p ∧ p < s.start + (size : Int) ∧ calledOp l r s.start s.sStart p = o) := fun hh => hin ⟨hh.1, hh.2.1⟩
+                simp [this, hin]
+            · have hm' : op ∉ Const.PARSE_MATCH_OPS := by simpa using hm
+              simp [showsAt, consumes, e2, e1, e4, hm']
+  have := key r.cigar { start := r.refStart, sStart := 0, prevQ := Const.PARSE_PREV_Q, evs := [], dump := [], phase := [] }
+  simpa [countOp] using this
+
+
+/-- observations at `p` whose operation satisfies `Q` (depth: `Q = not insertion`; support of `o`: `Q = (· == o)`) -/
+def countP (Q : String → Bool) (evs : List Ev) (p : Int) : Nat := (evs.filter fun e => e.pos == p && Q e.op).length
+
+theorem countP_append (Q : String → Bool) (a b : List Ev) (p : Int) : countP Q (a ++ b) p = countP Q a p + countP Q b p := by
+  simp [countP, List.filter_append]
+
+theorem countP_reverse (Q : String → Bool) (evs : List Ev) (p : Int) : countP Q evs.reverse p = countP Q evs p := by
+  simp [countP, List.filter_reverse]
+
+theorem countOp_eq_countP (evs : List Ev) (p : Int) (o : String) : countOp evs p o = countP (· == o) evs p := rfl
+
+theorem eraseFound_countP (Q : String → Bool) (rev : List Ev) (pos : Int) (op : String) (q : Int) (hq : q ≠ pos) (i : Nat)
+    (hi : rev.findIdx? (fun e => e.pos == pos && e.op == op) = some i) :
+    countP Q (rev.eraseIdx i) q = countP Q rev q := by
+  unfold countP
+  rw [filter_eraseIdx_of_not]
+  intro x hx
+  obtain ⟨hlt, hp, _⟩ := List.findIdx?_eq_some_iff_getElem.mp hi
+  have hxe : x = rev[i] := by
+    have : rev[i]? = some (rev[i]) := List.getElem?_eq_getElem hlt
+    rw [this] at hx
+    exact (Option.some.inj hx).symm
+  simp only [Bool.and_eq_true, beq_iff_eq] at hp
+  have : x.pos ≠ q := by rw [hxe, hp.1]; exact fun h => hq h.symm
+  simp [this]
+
+theorem popLast_countP_other (Q : String → Bool) (evs : List Ev) (pos : Int) (op : String) (q : Int) (hq : q ≠ pos) :
+    countP Q (popLast evs pos op).1 q = countP Q evs q := by
+  unfold popLast
+  dsimp only
+  split
+  · rename_i i hi
+    rw [countP_reverse, eraseFound_countP Q _ pos op q hq i hi, countP_reverse]
+  · rfl
+
+theorem countP_snoc_other (Q : String → Bool) (evs : List Ev) (e : Ev) (q : Int) (h : e.pos ≠ q) :
+    countP Q (evs ++ [e]) q = countP Q evs q := by
+  rw [countP_append]
+  simp [countP, h]
+
+/-- the merge of multi-substitutions changes observations only at the positions of its sites (any counting predicate) -/
+theorem mergeMnp_countP_away (Q : String → Bool) (l : LocusV) (evs : List Ev) (dump : List (Int × String)) (q : Int)
+    (h : ∀ site ∈ l.multiSites, siteTouches site q = false) :
+    countP Q (mergeMnp l evs dump) q = countP Q evs q := by
+  unfold mergeMnp
+  have key : ∀ (ss : List (Int × String)), (∀ site ∈ ss, siteTouches site q = false) → ∀ evs : List Ev,
+      countP Q (ss.foldl (fun evs site =>
+        let pos := site.1
+        let parts := mnpParts site.2
+        if dump.any (fun d => d.1 == pos) && parts.all (fun p => dump.contains (pos + (p.1 : Int), p.2)) then
+          let step := parts.foldl (fun (acc : List Ev × List Obs) p =>
+            match popLast acc.1 (pos + (p.1 : Int)) p.2 with
+            | (evs', some o) =>
+              ((if p.1 != 0 then evs' ++ [⟨pos + (p.1 : Int), "_", o⟩] else evs'), acc.2 ++ [o])
+            | (evs', none) => (evs', acc.2)) (evs, [])
+          step.1 ++ [⟨pos, site.2, (ratMean (step.2.map (·.1)), ratMean (step.2.map (·.2)))⟩]
+        else evs) evs) q = countP Q evs q := by
+    intro ss
+    induction ss with
+    | nil => intro _ evs; rfl
+    | cons site ss ih =>
+      intro hs evs
+      simp only [List.foldl_cons]
+      rw [ih (fun s hs' => hs s (by simp [hs']))]
+      have ht := hs site (by simp)
+      simp only [siteTouches, Bool.or_eq_false_iff, beq_eq_false_iff_ne, ne_eq, List.any_eq_false, beq_iff_eq] at ht
+      split
+      · rw [countP_snoc_other _ _ _ _ (fun hh => ht.1 hh.symm)]
+        have inner : ∀ (ps : List (Nat × String)), (∀ p ∈ ps, ¬ q = site.1 + (p.1 : Int)) → ∀ acc : List Ev × List Obs,
+            countP Q (ps.foldl (fun (acc : List Ev × List Obs) p =>
+              match popLast acc.1 (site.1 + (p.1 : Int)) p.2 with
+              | (evs', some o) =>
+                ((if p.1 != 0 then evs' ++ [⟨site.1 + (p.1 : Int), "_", o⟩] else evs'), acc.2 ++ [o])
+              | (evs', none) => (evs', acc.2)) acc).1 q = countP Q acc.1 q := by
+          intro ps
+          induction ps with
+          | nil => intro _ acc; rfl
+          | cons p ps ihp =>
+            intro hp acc
+            simp only [List.foldl_cons]
+            rw [ihp (fun x hx => hp x (by simp [hx]))]
+            have hne : q ≠ site.1 + (p.1 : Int) := hp p (by simp)
+            have hpop := popLast_countP_other Q acc.1 (site.1 + (p.1 : Int)) p.2 q hne
+            rcases hres : popLast acc.1 (site.1 + (p.1 : Int)) p.2 with ⟨evs', o?⟩
+            rw [hres] at hpop
+            cases o? with
+            | none => simpa using hpop
+            | some o =>
+              simp only
+              split
+              · rw [countP_snoc_other _ _ _ _ (fun hh => hne hh.symm)]; exact hpop
+              · exact hpop
+        exact inner _ (fun p hp => ht.2 p hp) (evs, [])
+      · rfl
+  exact key l.multiSites h evs
+
+/-- **support_total (any locus)** over any list of reads, the number of observations of a
+non-insertion operation `o` at a position `p` outside multi-substitution sites is the number of
+reads whose alignment shows `o` at `p`: reference marker and substitutions are counted once per
+read that shows them, deleted bases once per read that deletes them - nothing else is counted -/
+theorem support_total_general (l : LocusV) (reads : List ReadV) (p : Int) (o : String) (ho : opIsIns o = false)
+    (h : ∀ site ∈ l.multiSites, siteTouches site p = false) :
+    countOp (reads.flatMap fun r => (parseRead l r).1) p o =
+      (reads.filter fun r => decide (showsAt l r r.cigar r.refStart 0 p = some o)).length := by
+  induction reads with
+  | nil => simp [countOp]
+  | cons r rs ih =>
+    rw [List.flatMap_cons, countOp_append, ih, List.filter_cons]
+    have h1 : countOp (parseRead l r).1 p o = if showsAt l r r.cigar r.refStart 0 p = some o then 1 else 0 := by
+      unfold parseRead
+      simp only
+      rw [countOp_eq_countP, mergeMnp_countP_away _ l _ _ p h, ← countOp_eq_countP]
+      exact shows_one_read l r p o ho
+    rw [h1]
+    by_cases hh : showsAt l r r.cigar r.refStart 0 p = some o
+    · simp [hh]; omega
+    · simp [hh]
+
+
 end Aldy
